@@ -33,6 +33,8 @@ def check(repo: Repo, rep: Report) -> None:
     rep.rule("A-no-reacquire", "no use, while holding the non-reentrant lock, of a self member that takes it again", floor=5)
     rep.rule("B-readonly-property", "no store to a property that has no setter (package-wide)", floor=1)
     rep.rule("C-progress", "each run-loop iteration path exits the loop or dequeues", floor=4)
+    rep.rule("E-clock-kind", "every clock update after construction is decided by isinstance(self._clock, datetime) and uses the "
+                             "arithmetic of that clock kind (a numeric bump on a datetime clock raises in the middle of a run)", floor=6)
     rep.rule("D-enabled-flag", "enabled flag: test-and-set at entry under the lock, reset on every normal exit", floor=4)
     cls = repo.fn(V, "VirtualTimeScheduler")
     kind = lock_kind(repo, cls, "_lock")
@@ -119,3 +121,26 @@ def check(repo: Repo, rep: Report) -> None:
         rets_in_loop = [x for x in ast.walk(last.node) if isinstance(x, ast.Return)]
         rep.ob("D-enabled-flag", m, f"{mname}: _is_enabled reset after the run loop", bool(resets) and not rets_in_loop,
                "after the queue drained the enabled flag is not reset on every exit: the scheduler cannot be started again")
+    # E: the clock is either a float or a datetime for the whole life of the scheduler
+    vts = repo.fn(V, "VirtualTimeScheduler")
+    for mth in vts.children:
+        if not mth.is_func or mth.name == "__init__":
+            continue
+        for s_ in sites(mth):
+            n_ = s_.node
+            if isinstance(n_, (ast.Assign, ast.AugAssign)):
+                t_ = n_.targets[0] if isinstance(n_, ast.Assign) else n_.target
+                if u(t_) != "self._clock":
+                    continue
+                pol = None
+                for e, p_ in s_.ctx.guards:
+                    if isinstance(e, ast.Call) and call_name(e) == "isinstance" and len(e.args) == 2 and u(e.args[0]) == "self._clock" and "datetime" in u(e.args[1]):
+                        pol = p_
+                v = n_.value
+                numeric = (isinstance(v, ast.Constant) and isinstance(v.value, (int, float))) or (isinstance(v, ast.Call) and dotted(v.func) == "self.to_seconds")
+                delta = isinstance(v, ast.Call) and call_name(v) == "timedelta"
+                ok = pol is not None and not (pol and numeric) and not ((not pol) and delta)
+                rep.ob("E-clock-kind", mth, f"{mth.name}: `{short(n_, 50)}` under isinstance(self._clock, datetime) = {pol}", ok,
+                       f"VirtualTimeScheduler.{mth.name} updates the clock with `{short(n_, 50)}` without deciding on the clock's kind "
+                       f"(or with the other kind's arithmetic): on a datetime (HistoricalScheduler) or numeric clock the statement "
+                       f"raises TypeError in the middle of a run and the remaining actions never run")
